@@ -123,7 +123,7 @@ theorem rawAttrsOk_map (m : Method) (a : List (Name × List Char)) (h : attrsOkB
   exact (escapeSpec_chars true p.2 c hc).2.2 rfl
 
 theorem rtokOk_rawOf (m : Method) (tok : Tok) (h : tokOkB m tok = true)
-    (hs : ∀ s, tok = .text s true → SafeOk s) : RTokOk (rawOf tok) := by
+    (hs : ∀ s, tok = .text s true → SafeOk s) : RTokOk m (rawOf tok) := by
   cases tok with
   | text s f =>
     cases f
@@ -133,11 +133,11 @@ theorem rtokOk_rawOf (m : Method) (tok : Tok) (h : tokOkB m tok = true)
     · exact safeOk_no_lt s (hs s rfl)
   | close t => exact (isNameB_iff t).mp h
   | «open» t a =>
-    simp only [tokOkB, Bool.and_eq_true] at h
-    exact ⟨(isNameB_iff t).mp h.1.1, rawAttrsOk_map m a h.1.2⟩
+    simp only [tokOkB, Bool.and_eq_true, Bool.not_eq_true'] at h
+    exact ⟨⟨(isNameB_iff t).mp h.1.1, rawAttrsOk_map m a h.1.2⟩, h.2⟩
   | empty t a =>
-    simp only [tokOkB, Bool.and_eq_true] at h
-    exact ⟨(isNameB_iff t).mp h.1.1, rawAttrsOk_map m a h.1.2⟩
+    simp only [tokOkB, Bool.and_eq_true, Bool.not_eq_true'] at h
+    exact ⟨⟨(isNameB_iff t).mp h.1.1, rawAttrsOk_map m a h.1.2⟩, h.2⟩
 
 theorem escapeMixed_nil : escapeMixed [] = [] := rfl
 
